@@ -696,6 +696,76 @@ def r16b_into_iter_map_block_collect(text):
         text = text[:m.start()] + new + rest[m2.end():]
 
 
+def r0b_dead_const_block(text):
+    """option dead=NAME of the //@fn line (weave checks that the source declares `const NAME: bool = false;`): a statement
+    `if NAME && COND { .. }` is dropped (dead code: statistics output through println!, which Verus cannot ingest)."""
+    names = [x for x in getattr(_TL, 'opts', {}).get('dead', '').split('+') if x]
+    n = 0
+    for name in names:
+        while True:
+            m = re.search(r'(?m)^[ \t]*if ' + re.escape(name) + r' && [^{\n]*\{[ \t]*$', text)
+            if not m:
+                break
+            toks = lex(text)
+            ob = max(k for k, t in enumerate(toks) if t.text == '{' and t.end <= m.end())
+            cb = match_close(toks, ob)
+            seg = text[m.start():toks[cb].end]
+            n += 1
+            text = text[:m.start()] + '\n' * seg.count('\n') + text[toks[cb].end:]
+    return text, n
+
+
+def r33_extend_map_closure(text):
+    """`V.extend(X.into_iter().map(F));` (X a Vec / field path of a Copy element type, F a closure variable) =>
+    `for e__N in 0..X.len() { V.push(F(X[e__N])); }`"""
+    n = 0
+    while True:
+        m = re.search(r'(?m)^([ \t]*)(\w+)\.extend\(((?:\w+\.)*\w+)\.into_iter\(\)\.map\((\w+)\)\);[ \t]*$', text)
+        if not m:
+            return text, n
+        n += 1
+        ind, v, x, f = m.groups()
+        i = f'e__{n}'
+        text = text[:m.start()] + f'{ind}for {i} in 0..{x}.len() {{ {v}.push({f}({x}[{i}])); }}' + text[m.end():]
+
+
+def r34_extend_array_call(text):
+    """`V.extend(F(ARG));` (also with the argument on its own line; F a closure variable returning a `[usize; 32]`) =>
+    `{ let a__N = F(ARG); vec_extend_arr(&mut V, &a__N); }`"""
+    n = 0
+    while True:
+        m = re.search(r'(?m)^([ \t]*)(\w+)\.extend\((\w+)\(\s*((?:\w+\.)*\w+),?\s*\)\);[ \t]*$', text)
+        if not m:
+            return text, n
+        n += 1
+        ind, v, f, arg = m.groups()
+        nl = text[m.start():m.end()].count('\n')
+        text = text[:m.start()] + f'{ind}{{ let a__{n} = {f}({arg}); vec_extend_arr(&mut {v}, &a__{n}); }}' + '\n' * nl + text[m.end():]
+
+
+def r35_closure_shapes(text):
+    """closures get a block body and immutable parameters so that Verus can attach a contract: `|ARGS| match X { .. }` =>
+    `|ARGS| { match X { .. } }`; `|mut P: T| -> R { BODY }` => `|P__0: T| -> R { let mut P = P__0; BODY }`"""
+    n = 0
+    while True:
+        m = re.search(r'= \|(\w+): (\w+)\| match \1 \{', text)
+        if not m:
+            break
+        toks = lex(text)
+        ob = next(k for k, t in enumerate(toks) if t.text == '{' and t.end == m.end())
+        cb = match_close(toks, ob)
+        n += 1
+        text = text[:m.start()] + f'= |{m.group(1)}: {m.group(2)}| {{ match {m.group(1)} {{' + text[m.end():toks[cb].end] + ' }' + text[toks[cb].end:]
+    while True:
+        m = re.search(r'\|mut (\w+): ([^|]+)\| -> ([^{]+)\{', text)
+        if not m:
+            break
+        n += 1
+        pnm, ty, rt = m.groups()
+        text = text[:m.start()] + f'|{pnm}__0: {ty}| -> {rt}{{ let mut {pnm} = {pnm}__0;' + text[m.end():]
+    return text, n
+
+
 def r10_windows2(text):
     """`for W in X.windows(2) {` => `for w__N in 0..(if X.len() >= 2 { X.len() - 1 } else { 0 }) { let W = [X[w__N], X[w__N + 1]];`
     (Verus has no specification of slice::Windows; for Copy elements W[0], W[1] read the same values)."""
@@ -757,7 +827,7 @@ def r7_param_patterns(text):
     return _apply_edits(text, edits), n
 
 
-RULES = [('R0', r0_visibility_and_stats), ('R1', r1_ref_patterns), ('R7', r7_param_patterns), ('R28', r28_mut_self), ('R8', r8_assert_eq), ('R9', r9_subslice_copy), ('R10', r10_windows2), ('R11', r11_collect), ('R12', r12_subslice_to_subslice), ('R13', r13_copied_take), ('R15', r15_iter_all_eq), ('R16', r16_map_collect_tail), ('R17', r17_match_arm_ref_guard), ('R18', r18_bool_bitand), ('R20', r20_iter_skip), ('R21', r21_let_map_collect), ('R21b', r21b_let_chain_map_collect), ('R29', r29_map_index), ('R22b', r22b_extend_array_iter), ('R22', r22_vec_extend), ('R23', r23_range_copy), ('R24', r24_opaque_iter), ('R25', r25_iter_sum), ('R26', r26_slice_iters), ('R27', r27_add_assign_ref), ('R30', r30_iter_mut_enumerate_take), ('R31', r31_iter_mut_enum_fields), ('R32', r32_iter_mut_plain), ('R16b', r16b_into_iter_map_block_collect),
+RULES = [('R0', r0_visibility_and_stats), ('R1', r1_ref_patterns), ('R7', r7_param_patterns), ('R28', r28_mut_self), ('R8', r8_assert_eq), ('R9', r9_subslice_copy), ('R10', r10_windows2), ('R11', r11_collect), ('R12', r12_subslice_to_subslice), ('R13', r13_copied_take), ('R15', r15_iter_all_eq), ('R16', r16_map_collect_tail), ('R17', r17_match_arm_ref_guard), ('R18', r18_bool_bitand), ('R20', r20_iter_skip), ('R21', r21_let_map_collect), ('R21b', r21b_let_chain_map_collect), ('R29', r29_map_index), ('R22b', r22b_extend_array_iter), ('R33', r33_extend_map_closure), ('R34', r34_extend_array_call), ('R22', r22_vec_extend), ('R23', r23_range_copy), ('R24', r24_opaque_iter), ('R25', r25_iter_sum), ('R26', r26_slice_iters), ('R27', r27_add_assign_ref), ('R30', r30_iter_mut_enumerate_take), ('R0b', r0b_dead_const_block), ('R35', r35_closure_shapes), ('R31', r31_iter_mut_enum_fields), ('R32', r32_iter_mut_plain), ('R16b', r16b_into_iter_map_block_collect),
          ('R2', r2_array_literal_loops), ('R3', r3_zip_enumerate)]
 
 
